@@ -82,7 +82,7 @@ func (x *Exec) callCommon(fr *frame, st *State, cc *ssa.CallCommon, fnv Value, a
 	if r, ok := x.intrinsic(fr, st, name, args); ok {
 		return r
 	}
-	if fr.top && x.fc != nil && (x.fc.AtCall != nil || len(x.fc.Uses) > 0) {
+	if fr.top && x.fc != nil && (x.fc.AtCall != nil || x.fc.AtCallSets != nil || len(x.fc.Uses) > 0) {
 		cname := callee.Name()
 		if i := strings.Index(cname, "["); i > 0 {
 			cname = cname[:i] // instance of a generic function: at-call conditions name the generic
@@ -96,6 +96,28 @@ func (x *Exec) callCommon(fr *frame, st *State, cc *ssa.CallCommon, fnv Value, a
 		}
 		conds := append([]Clause(nil), x.fc.AtCall[cname]...)
 		conds = append(conds, x.fc.AtCall[fmt.Sprintf("%s@%d", cname, nth)]...)
+		defer func() {
+			// ghost assignments attached to this call site (after its conditions were proved)
+			sets := append([]GhostBind(nil), x.fc.AtCallSets[cname]...)
+			sets = append(sets, x.fc.AtCallSets[fmt.Sprintf("%s@%d", cname, nth)]...)
+			for _, gb := range sets {
+				g, ok := x.ghosts[gb.Name]
+				if !ok {
+					bail("at-call sets: unknown ghost %s", gb.Name)
+				}
+				cur := x.contents(st, g)
+				v := x.evalExpr(fr, st, gb.Clause.Expr, x.loopOpts(fr, nil))
+				if sc, isSc := cur.(Sc); isSc {
+					if u, isU := v.(Untyped); isU {
+						v = x.coerceTo(u, sc.Sort, sc.Signed)
+					}
+					if vs, ok2 := v.(Sc); ok2 && vs.Sort != sc.Sort {
+						bail("at-call sets %s: sort %s, expected %s", gb.Name, vs.Sort, sc.Sort)
+					}
+				}
+				st.mem[g] = v
+			}
+		}()
 		for _, c := range conds {
 			g := x.evalGoalClause(fr, st, c, x.loopOpts(fr, nil))
 			n := nth
